@@ -237,7 +237,17 @@ def docvalues(i, mask, vsel):
     return d, exp
 
 
-def run_e2e(masks, vsel, config):
+BAD = {"n": 2 ** 40, "u": -1, "dt": u"not a date", "dec": u"x.y"}      # inadmissible values: add_document raises, the caller carries on
+
+
+def rejected_doc(failing):
+    d = {"k": u"rejected", "s": u"rejected secret", "o": [u"leak"], "n": -5, "u": 77, "fl": 2.5, "dt": datetime.datetime(1999, 9, 9), "bo": True,
+         "dec": Decimal("7.77"), "kw": u"rej leak", "t": u"rejected body", "_stored_t": u"rejected override"}
+    d[failing] = BAD[failing]
+    return d
+
+
+def run_e2e(masks, vsel, config, reject=None):
     random.seed(31)
     storage_kind, compound, merge, to_ram = config
     tmp = []
@@ -253,6 +263,14 @@ def run_e2e(masks, vsel, config):
         for i, mask in enumerate(masks):
             w = ix.writer(compound=compound)
             d, exp = docvalues(i, mask, vsel)
+            if reject is not None and reject[0] == i:
+                # a document the library rejects half way, absorbed by the caller (tests/test_writing.py::test_add_fail_with_absorbed_exception
+                # documents this use); the next document gets the same document number and must not inherit anything
+                try:
+                    w.add_document(**rejected_doc(reject[1]))
+                    return "masks=%r: the inadmissible %s value was accepted" % (masks, reject[1])
+                except Exception:  # noqa
+                    pass
             w.add_document(**d)
             expected[exp["k"]] = exp
             w.commit(merge=False)
@@ -305,6 +323,15 @@ def run_e2e(masks, vsel, config):
                         return "%s: Hit[%r] = %r differs from stored_fields %r" % (where, fname, hit[fname], sf[fname])
             if seen != set(expected):
                 return "%s: documents read back %r, written %r" % (where, sorted(seen), sorted(expected))
+            if reject is not None:
+                for fname, text in (("k", u"rejected"), ("s", u"secret"), ("kw", u"leak"), ("t", u"body"), ("bo", True)):
+                    q = query.Term(fname, text) if fname != "bo" else None
+                    if q is not None:
+                        got = [h_["k"] for h_ in s.search(q, limit=None)]
+                        if got:
+                            return "%s reject=%r: %r finds %r - a term of the rejected document" % (where, reject, q, got)
+                if s.doc_count_all() != len(masks):
+                    return "%s reject=%r: doc_count_all() = %d after %d accepted documents" % (where, reject, s.doc_count_all(), len(masks))
         return None
     except Exception as e:  # noqa
         import traceback
@@ -341,6 +368,25 @@ def c08_stored(m1: int, m2: int, m3: int, vs: int, cf: int) -> Optional[str]:
 
 
 NM2 = tiered(4, 6)
+REJ = ["n", "u", "dt", "dec"]
+
+
+@h(bounds="as c08_stored, with a document that add_document() rejects half way (inadmissible value in one of 4 fields chosen by a symbolic code, "
+          "exception absorbed by the caller) added by the same writer just before document 0..2 (symbolic); the accepted documents must read back "
+          "exactly as supplied and no term of the rejected document may be searchable",
+   funcs=["whoosh.writing.SegmentWriter.add_document", "whoosh.codec.whoosh3.W3PerDocWriter.cancel_doc", "whoosh.codec.whoosh3.W3PerDocWriter.start_doc"],
+   examples=[dict(m1=11, m2=0, at=1, rf=0, cf=2), dict(m1=1, m2=3, at=0, rf=1, cf=0)], timeout=dict(quick=900, thorough=3000),
+   outside="more than 3 documents; rejection inside MpWriter sub-processes")
+def c08_rejected(m1: int, m2: int, at: int, rf: int, cf: int) -> Optional[str]:
+    """
+    pre: 0 <= m1 < NM and 0 <= m2 < NM2 and 0 <= at < 3 and 0 <= rf < 4 and 0 <= cf < 6
+    post: _ is None
+    """
+    with notrace():
+        ma, mb = MASKS[pick(m1, NM)], MASKS[pick(m2, NM2)]
+        r = run_e2e([ma, mb, ma ^ 1023], 1, CONFIGS[pick(cf, 6)], reject=(pick(at, 3), REJ[pick(rf, 4)]))
+    tick(True)
+    return r
 
 
 def _kf_dt():
